@@ -432,6 +432,38 @@ def twin_cases(run: lib.Run) -> None:
                             return
 
 
+def literal_twins() -> list:
+    """documents that differ only in the TYPE of a literal json.dumps cannot write (a date) vs its text form: different documents"""
+    from datetime import date
+    def doc(lit):
+        return {"algorithm": "deny-overrides", "rules": [{"id": "d", "effect": "permit", "actions": ["read"], "resource": {"type": "doc"},
+                                                           "condition": {"==": [{"attr": "context.day"}, lit]}}]}
+    return [("date object vs its ISO text", doc(date(2026, 9, 29)), doc("2026-09-29")),
+            ("set vs sorted list", {**doc("x"), "tags": {"b", "a"}}, {**doc("y"), "tags": ["a", "b"]})]
+
+
+def shared_cache_twins(run: lib.Run) -> None:
+    """TWO engines holding twin documents and sharing ONE cache (a deployment-wide cache): each is answered by its own document"""
+    reqs = POOL[:3] + [req(ctx={"day": "2026-09-29"}), req(ctx={"day": "x"}), req(ctx={"day": "y"})]
+    for name, p1, p2 in twin_policies() + literal_twins():
+        for order in (0, 1):
+            cache = DefaultInMemoryCache(maxsize=2048)
+            docs = (p1, p2) if order == 0 else (p2, p1)
+            gs = [Guard(copy.deepcopy(d), cache=cache, cache_ttl=300) for d in docs]
+            plain = [Guard(copy.deepcopy(d)) for d in docs]
+            for rnd in (0, 1):
+                for ri, r in enumerate(reqs):
+                    for gi in (0, 1):
+                        got, want = decision(gs[gi], r), decision(plain[gi], r)
+                        run.case(["shared-twin", name, order, rnd, ri, gi], True)
+                        run.count("twin-policy:shared-cache")
+                        if got != want:
+                            run.spec_failures.append({"part": "twin-policies", "pair": name + " (two engines, one cache)", "first": repr(docs[0])[:400],
+                                                      "second": repr(docs[1])[:400], "engine": gi, "request": r, "cached": got, "uncached": want,
+                                                      "spec": "a cached engine returned a decision different from the uncached engine holding the same policy"})
+                            return
+
+
 def gather_cases(run: lib.Run) -> None:
     """the whole pool in flight at once on ONE cached engine (a role resolver that yields to the loop makes the evaluations interleave),
     twice; every answer next to the uncached engine's"""
@@ -648,6 +680,7 @@ def check(run: lib.Run, audit: dict) -> int:
     check_canon_model(run, real_keys)
     run_cases(run)
     twin_cases(run)
+    shared_cache_twins(run)
     gather_cases(run)
     overlap_cases(run)
     violations = []
@@ -676,7 +709,8 @@ def replay(run: lib.Run, audit: dict, path: str) -> int:
         print("now:", run_history(hist, c["maxsize"], c["ttl"], c["cache"], False), run_history(hist, c["maxsize"], c["ttl"], c["cache"], True))
     if c.get("part") in ("overlapping evaluations", "twin-policies", "concurrent-evaluations"):
         before = len(run.spec_failures)
-        {"overlapping evaluations": overlap_cases, "twin-policies": twin_cases, "concurrent-evaluations": gather_cases}[c["part"]](run)
+        for fn in {"overlapping evaluations": (overlap_cases,), "twin-policies": (twin_cases, shared_cache_twins), "concurrent-evaluations": (gather_cases,)}[c["part"]]:
+            fn(run)
         now = run.spec_failures[before:]
         print("now:", json.dumps(now[:1], default=str)[:1500] if now else "no difference between the cached and the uncached engine")
         print("recorded:", json.dumps(c, default=str)[:1500])
